@@ -881,6 +881,9 @@ pub fn c13(ctx: &Ctx) -> PropResult {
     for (lib, main) in crate::props6::module_duplicate_names() {
         trees.push((main, vec![("lib.ap".to_string(), lib)], "duplicate-names".to_string()));
     }
+    for (lib, main) in crate::props6::repeated_import_execution() {
+        trees.push((main, vec![("lib.ap".to_string(), lib)], "repeated-import-execution".to_string()));
+    }
     for (lib, main) in crate::props6::nested_export_family() {
         trees.push((main, vec![("lib.ap".to_string(), lib)], "nested-export".to_string()));
     }
@@ -924,7 +927,7 @@ pub fn c13(ctx: &Ctx) -> PropResult {
             }
         }
         // module top-level runs once per import statement
-        if failure.is_none() && matches!(r.end, End::Ok) {
+        if failure.is_none() && matches!(r.end, End::Ok) && kind != "repeated-import-execution" {
             // import statements that name a user file
             let imports = main.lines().filter(|l| l.trim_start().starts_with("IMPORT") && l.contains(".ap\"")).count();
             let runs = r.output.matches("module top-level").count();
@@ -1066,7 +1069,7 @@ pub fn c13(ctx: &Ctx) -> PropResult {
     stats.merge(collect(raw_verdicts));
     PropResult {
         stats,
-        rule: "library imports: for every module of the live registry the forms IMPORT MOD, IMPORT \"f\" FROM MOD (several names), IMPORT [f, g] FROM MOD, an unknown name, an unknown module; after each, every procedure name of the whole registry is probed without running it (a call with one argument too many: the label is the argument list iff the name is defined, the name iff it is not) and the importer's variable is displayed; user modules: generated files in the importer's directory or sub-directories with top-level output, a module variable, two exported procedures (one calling the other), a private procedure, optionally a runtime / syntax / lexical error or a nested import relative to the module's own directory; imported whole, by one name, by a list, by a private name, twice; probes for exported / private / module-variable / nested names and the importer's variables; in-process with the model given the same file tree; modules declaring one name several times (exported / private in every order) under every import form; module top-level code calling what only its importer imported or declared; ordered pairs and triples of imports of one module (whole / one name / another / a list, the second also in a loop); trees with symbolic links (program, module, directory reached through a link); a procedure called last before and first after an IMPORT that installs another procedure of that name; a program's procedure named like a module's, called before and after the import; EXPORT at every nesting; selective lists of 3 .. 40 names".into(),
+        rule: "library imports: for every module of the live registry the forms IMPORT MOD, IMPORT \"f\" FROM MOD (several names), IMPORT [f, g] FROM MOD, an unknown name, an unknown module; after each, every procedure name of the whole registry is probed without running it (a call with one argument too many: the label is the argument list iff the name is defined, the name iff it is not) and the importer's variable is displayed; user modules: generated files in the importer's directory or sub-directories with top-level output, a module variable, two exported procedures (one calling the other), a private procedure, optionally a runtime / syntax / lexical error or a nested import relative to the module's own directory; imported whole, by one name, by a list, by a private name, twice; probes for exported / private / module-variable / nested names and the importer's variables; in-process with the model given the same file tree; modules declaring one name several times (exported / private in every order) under every import form; module top-level code calling what only its importer imported or declared; ordered pairs and triples of imports of one module (whole / one name / another / a list, the second also in a loop); trees with symbolic links (program, module, directory reached through a link); a procedure called last before and first after an IMPORT that installs another procedure of that name; a program's procedure named like a module's, called before and after the import; EXPORT at every nesting; selective lists of 3 .. 40 names; an IMPORT statement executed several times (loop, procedure called twice)".into(),
         exhaustive: false,
         notes: vec!["exported procedures that call a procedure the importer did not import are the known finding (see known_findings.txt); the generator imports the whole module whenever an exported procedure calls another one".into()],
     }
@@ -1464,13 +1467,19 @@ pub fn c18(ctx: &Ctx) -> PropResult {
         programs.push(("TIME.SLEEP".into(), format!("{all_imports}{}DISPLAY(\"A\")\nr <- SLEEP({a})\nDISPLAY(r)\nDISPLAY(\"B\")\n", crate::gen::exemplar_prelude())));
     }
     programs.push(("dead-code".into(), "PROCEDURE f() {\nRETURN 1\nDISPLAY(\"dead\")\n}\nDISPLAY(f())\nPROCEDURE g(x) {\nIF (x) {\nRETURN 2\nx <- 0\n}\nRETURN 3\nRETURN 4\n}\nDISPLAY(g(TRUE) + g(FALSE))\n".into()));
+    // (appended) constructs a linter would remark on: a list stored in itself, two parameters of one name, a variable
+    // assigned and never read, a comparison of a value with itself, an empty block, an unused import
+    programs.push(("remarkable".into(), "a <- [1]\nDISPLAY(\"A\")\nAPPEND(a, a)\nINSERT(a, 1, a)\nDISPLAY(LENGTH(a))\nDISPLAY(\"B\")\n".into()));
+    programs.push(("remarkable".into(), "PROCEDURE f(a, a) {\nRETURN a\n}\nDISPLAY(f(1, 2))\nprocedure g(x, y, x) {\nreturn x\n}\nDISPLAY(g(1, 2, 3))\n".into()));
+    programs.push(("remarkable".into(), format!("{all_imports}unused <- 5\nx <- 1\nDISPLAY(x == x)\nIF (TRUE) {{\n}}\nREPEAT 0 TIMES {{\n}}\nx <- x\nDISPLAY(\"B\")\n")));
     programs.push(("ROBOT.legacy-move".into(), format!("{all_imports}rb <- ROBOT_MAP(\"e..\")\nDISPLAY(\"A\")\nDISPLAY(MOVE_FOWARD(rb))\nDISPLAY(MOVE_FOWARD(rb))\nDISPLAY(MOVE_FORWARD(rb))\nDISPLAY(\"B\")\n")));
     // single-threaded, with the process's own descriptors 1 and 2 captured
     let mut d = Driver::spawn(&ctx.driver);
     let mut model_outs = vec![];
-    for (_, src) in &programs {
+    for (tag, src) in &programs {
         let reply = d.ask(&format!("RUN h{} h h{} 1000000 - {}", hex(src.as_bytes()), hex(main_path.as_bytes()), model_files));
-        model_outs.push(imp::parse_model_run(&reply).map(|x| x.0));
+        // (the "remarkable" programs build a list that contains itself and never display it)
+        model_outs.push(imp::parse_model_run_opts(&reply, tag == "remarkable").map(|x| x.0));
     }
     // FS procedures act relative to the working directory: a scratch directory for the duration of the run
     let old_cwd = std::env::current_dir().ok();
@@ -1546,7 +1555,7 @@ pub fn c18(ctx: &Ctx) -> PropResult {
     }
     PropResult {
         stats: st,
-        rule: "every library procedure of the live registry (SLEEP excepted; FS inside a scratch working directory, INPUT with an empty standard input) called once with plausible arguments between two DISPLAY probes, every statement form, the three IMPORT forms, lexical / syntax / runtime errors, random programs; run in-process with the output channel captured by the hook sink while the process's file descriptors 1 and 2 are redirected to files: the sink must hold exactly the model's displayed output and the descriptors must stay empty (lexing and parsing alone included); static part: the census of output sites regenerated into Gen/Sites.lean and closed by `decide` (see theorems); programs with 1 .. 300 lexical / syntax errors; INPUT at end of input; every FS procedure failing for every kind of reason; every environment variable the code reads is set; thirteen operators x ten operand kinds squared; SLEEP with durations that take no time; the legacy spelling of the robot's move; dead code after RETURN".into(),
+        rule: "every library procedure of the live registry (SLEEP excepted; FS inside a scratch working directory, INPUT with an empty standard input) called once with plausible arguments between two DISPLAY probes, every statement form, the three IMPORT forms, lexical / syntax / runtime errors, random programs; run in-process with the output channel captured by the hook sink while the process's file descriptors 1 and 2 are redirected to files: the sink must hold exactly the model's displayed output and the descriptors must stay empty (lexing and parsing alone included); static part: the census of output sites regenerated into Gen/Sites.lean and closed by `decide` (see theorems); programs with 1 .. 300 lexical / syntax errors; INPUT at end of input; every FS procedure failing for every kind of reason; every environment variable the code reads is set; thirteen operators x ten operand kinds squared; SLEEP with durations that take no time; the legacy spelling of the robot's move; dead code after RETURN; constructs a linter would remark on (a list stored in itself, two parameters of one name, unused values)".into(),
         exhaustive: false,
         notes: vec![format!("{} output sites in /repo/src", output_sites().len()), "the library in its wasm configuration is type-checked by ./check on every run (cargo check --lib --no-default-features --features wasm), not executed".into()],
     }
